@@ -203,6 +203,20 @@ def clause_permissions(prog, rep):
                     names = set(x.name for x in calls)
                     if "join" in names and ("next" in names or "into_iter" in names or "iter" in names):
                         fed = True
+    # SQLite names its sidecars "<database file name>-wal" etc.: the name the suffix is appended to is Path::file_name (with the
+    # extension), not file_stem or anything shorter
+    named = None
+    for pth in sorted(perm_fns):
+        g = prog.fns[pth]
+        for c in g.live_calls():
+            if c.name == "join" and len(c.args) > 1 and "p" in c.args[1]:
+                _, calls, _ = g.depends_on(c.args[1]["p"][0])
+                names = set(x.name for x in calls)
+                if "next" in names or "into_iter" in names or "iter" in names:
+                    named = ("file_name" in names) and not ({"file_stem", "file_prefix", "with_extension"} & names)
+    rep.check(named is True, "permissions", "sidecars/named-after-file", "sidecar paths are <file name><suffix> (Path::file_name)",
+              "the sidecar paths are not built from the database's full file name (Path::file_name): for `x.db` the files `x.db-wal`, "
+              "`x.db-shm`, `x.db-journal` are never restricted")
     rep.check(fed, "permissions", "sidecars/restricted", "the path joined from each sidecar suffix is handed to the chmod helper",
               "the sidecar paths are built but never restricted: WAL / journal files keep default permissions")
 
